@@ -32,6 +32,44 @@ let spmv kind (m : mat) x b : qc list =
   | "residual", MCsc a -> q_csc_residual a x b
   | _ -> failwith ("kind " ^ kind)
 
+(* block matrices: the polymorphic formats at qc list; (matrix, b_rows, b_cols) *)
+type bmat = BCoo of qc list coo | BCsr of qc list csr | BCsc of qc list csc
+
+let bapply (m, br, bc) (op : string) =
+  let nbr = nat_of_int br and nbc = nat_of_int bc in
+  match op, m with
+  | "to_bcoo", BCoo a -> (BCoo (coo_to_coo a), br, bc) | "to_bcoo", BCsr a -> (BCoo (csr_to_coo a), br, bc)
+  | "to_bcoo", BCsc a -> (BCoo (csc_to_coo a), br, bc)
+  | "to_bsr", BCoo a -> (BCsr (coo_to_csr a), br, bc) | "to_bsr", BCsr a -> (BCsr (csr_to_csr a), br, bc)
+  | "to_bsr", BCsc a -> (BCsr (csc_to_csr a), br, bc)
+  | "to_bsc", BCoo a -> (BCsc (coo_to_csc a), br, bc) | "to_bsc", BCsr a -> (BCsc (csr_to_csc a), br, bc)
+  | "to_bsc", BCsc a -> (BCsc (csc_to_csc a), br, bc)
+  | "copy", BCoo a -> (BCoo (coo_to_coo a), br, bc) | "copy", BCsr a -> (BCsr (csr_to_csr a), br, bc)
+  | "copy", BCsc a -> (BCsc (csc_to_csc a), br, bc)
+  | "transpose", BCoo a -> (BCoo (q_bcoo_transpose nbr nbc a), bc, br)
+  | "transpose", BCsr a -> (BCsr (q_bsr_transpose nbr nbc a), bc, br)
+  | "transpose", BCsc a -> (BCsc (q_bsc_transpose nbr nbc a), bc, br)
+  | "sort", BCoo a -> (BCoo (coo_sort a), br, bc) | "sort", BCsr a -> (BCsr (csr_sort a), br, bc)
+  | "sort", BCsc a -> (BCsc (csc_sort a), br, bc)
+  | "move_diag", BCsr a -> (BCsr (csr_move_diag a), br, bc) | "move_diag", BCsc a -> (BCsc (csc_move_diag a), br, bc)
+  | "remove_duplicates", BCoo a -> (BCoo (q_bcoo_remove_duplicates a), br, bc)
+  | "remove_duplicates", BCsr a -> (BCsr (q_bsr_remove_duplicates a), br, bc)
+  | "remove_duplicates", BCsc a -> (BCsc (q_bsc_remove_duplicates a), br, bc)
+  | _ -> failwith ("bop " ^ op)
+
+let bmat_str (m, br, bc) =
+  let blk_str l = String.concat " " (List.map qs_str l) in
+  let lines fmt nr nc ls =
+    let flat = List.concat ls in
+    Printf.sprintf "%s %d %d %d %d %d I1 %s I2 %s V %s" fmt (int_of_nat nr) (int_of_nat nc) br bc (List.length flat)
+      (ints_str (ptr_of ls)) (nats_str (List.map fst flat)) (blk_str (List.map snd flat)) in
+  match m with
+  | BCoo a -> Printf.sprintf "bcoo %d %d %d %d %d I1 %s I2 %s V %s" (int_of_nat a.coo_nr) (int_of_nat a.coo_nc) br bc
+                (List.length a.coo_ents) (nats_str (List.map (fun e -> fst (fst e)) a.coo_ents))
+                (nats_str (List.map (fun e -> snd (fst e)) a.coo_ents)) (blk_str (List.map snd a.coo_ents))
+  | BCsr a -> lines "bsr" a.csr_nr a.csr_nc a.csr_rows
+  | BCsc a -> lines "bsc" a.csc_nr a.csc_nc a.csc_cols
+
 let run_case cid (t : toks) =
   let op = next t in
   match op with
@@ -53,6 +91,18 @@ let run_case cid (t : toks) =
     let nx = next_int t in let x = next_qs t nx in
     let nb = next_int t in let b = next_qs t nb in
     Printf.printf "%s V %s\n" cid (qs_str (spmv kind m x b))
+  | "bchain" ->
+    let bfmt = next t in
+    let nbr = next_int t in let nbc = next_int t in let br = next_int t in let bc = next_int t in
+    let nblk = next_int t in
+    let ents = take nblk (fun () -> let i = next_nat t in let j = next_nat t in let v = next_qs t (br * bc) in ((i, j), v)) in
+    let a = { coo_nr = nat_of_int nbr; coo_nc = nat_of_int nbc; coo_ents = ents } in
+    let m0 = (match bfmt with "bcoo" -> BCoo a | "bsr" -> BCsr (coo_to_csr a) | "bsc" -> BCsc (coo_to_csc a) | _ -> failwith bfmt) in
+    let k = next_int t in
+    let ops = take k (fun () -> next t) in
+    (match List.rev ops with
+     | "to_csr" :: _ | "to_coo" :: _ | "to_csc" :: _ -> Printf.printf "%s UNSUPPORTED scalar-conversion\n" cid
+     | _ -> let r = List.fold_left bapply (m0, br, bc) ops in Printf.printf "%s R %s\n" cid (bmat_str r))
   | "bspmv" | "bconv" ->
     (* block literal: bfmt nbr nbc br bc nblk (I J v*(br*bc))*  *)
     let kind = if op = "bspmv" then next t else "" in
